@@ -413,14 +413,7 @@ func (z *ZodFloatTyped[T, R]) Refine(fn func(T) bool, params ...any) *ZodFloatTy
 		return fn(val)
 	}
 
-	sp := utils.NormalizeParams(params...)
-
-	var msg any
-	if sp.Error != nil {
-		msg = sp.Error
-	}
-
-	return z.withCheck(checks.NewCustom[any](wrapper, msg))
+	return z.withCheck(checks.NewCustom[any](wrapper, utils.RefineParams(params...)))
 }
 
 // convertToFloatType converts matching float values to the target type T.
